@@ -61,7 +61,7 @@ def lines_for(tier):
     for t in ['#x', '&y', 'bob', 'alice', 'dave', '#nochan', '@#x', '+#x', '~&@%+#x', '&&y', '@', '#', '&', '@@', '~#', '%&', 'bob,bob', '#x,#x,@#x', ',', 'bob,', '@+&y', '+', '&&', '&#x', '#x,&y,bob,dave']:
         L += [f'PRIVMSG {t} :hi', f'NOTICE {t} :hi', f'PRIVMSG {t} :', f'PRIVMSG {t} é']
     L += ['PRIVMSG', 'PRIVMSG bob', 'NOTICE', 'NOTICE bob', 'PRIVMSG :x', 'PRIVMSG bob :' + 'x' * 500]
-    for m in M:
+    for m in M + ['R?al*', 'R?*', '*?al bob', '?éal*', 'Ré?l*', 'R??al*', '*é?', '*?']:     # bob's realname is 'Réal bob' (make_cases): '?' against a multi-byte character of the text
         L += [f'WHO {m}', f'WHOIS {m}', f'WHOIS {m},{m}']
     L += ['WHO', 'WHOIS', 'WHOIS bob', 'WHOIS srv.x bob', 'WHOIS bob,dave,alice', 'WHOWAS', 'WHOWAS bob', 'WHOWAS oldnick', 'WHOWAS bob 0', 'WHOWAS bob 1', 'WHOWAS bob ' + big, 'WHOWAS bob ' + over, 'WHOWAS bob x',
           'WHOWAS bob -1', 'WHOWAS oldnick 1', 'WHOWAS oldnick 2', 'WHOWAS oldnick 3', 'WHOWAS oldnick 0', 'WHOWAS oldnick ' + big, 'WHOWAS oldnick,bob 9', 'WHOWAS bob 1 srv.x', 'ISON', 'ISON bob', 'ISON ' + ' '.join(['bob'] * 25), 'USERHOST', 'USERHOST bob alice dave', 'USERHOST ' + ' '.join(['n%d' % i for i in range(25)]), 'USERHOST #x']
@@ -146,7 +146,7 @@ VERBS = ['CAP', 'AUTHENTICATE', 'PASS', 'NICK', 'USER', 'PING', 'PONG', 'OPER', 
 def make_cases(tier, profile):
     cases = []
     spec = dict(sym_caps=True, sym_max_joins=True, sym_topic=True, sym_key=True, sym_limit=True, sym_lists=True, sym_flags=True, sym_ranks=True, sym_invites=True, sym_away=True, sym_modes=True,
-                sym_history=True, plain_chans=['&y'], nicks=['alice', 'bob', 'carol'], operators=[('opname', 'goodpw', None)])
+                sym_history=True, plain_chans=['&y'], nicks=['alice', 'bob', 'carol'], operators=[('opname', 'goodpw', None)], realnames={'bob': 'Réal bob'})
     from mirsym.world import RANKS, UMODES
     # quick: existence of #x, membership of the actor and of one other user, the actor's own rank flags and operator flag, its invitation,
     # key, limit, max_joins, one ban, +i +m +s are symbolic; everything else has its default.  thorough: additionally the actor's protected/voice flags (more did not finish within 40 minutes).
